@@ -12,10 +12,10 @@ package main
 
 import (
 	"fmt"
-	"os"
 	"go/constant"
 	"go/token"
 	"go/types"
+	"os"
 	"sort"
 	"strings"
 
@@ -490,6 +490,25 @@ func (ip *Interp) runClosure(fn *ssa.Function, args []any, binds []any, depth in
 					if st, isSt := b.(*iStruct); isSt {
 						env[x] = iFieldAddr{st, x.Field}
 						continue
+					}
+					// a field of a struct-valued field (node.Token.Literal): the inner struct is an abstract object of its own
+					if fa, isFA := b.(iFieldAddr); isFA {
+						inner, have := fa.st.fields[fa.field].(*iStruct)
+						if !have {
+							if nt, isNamed := x.X.Type().Underlying().(*types.Pointer).Elem().(*types.Named); isNamed {
+								if _, isSt := nt.Underlying().(*types.Struct); isSt {
+									if _, occupied := fa.st.fields[fa.field]; !occupied {
+										inner = &iStruct{typ: nt, fields: map[int]any{}}
+										fa.st.fields[fa.field] = inner
+										have = true
+									}
+								}
+							}
+						}
+						if have {
+							env[x] = iFieldAddr{inner, x.Field}
+							continue
+						}
 					}
 				}
 				delete(env, x)
@@ -1088,4 +1107,68 @@ func isTextBuffer(t *types.Named) bool {
 	}
 	n := t.Obj().Pkg().Path() + "." + t.Obj().Name()
 	return n == "bytes.Buffer" || n == "strings.Builder"
+}
+
+// evalOnNode evaluates the evaluator's Eval on an abstract AST node of the given type (fields as given, by name) and
+// returns the result and the evaluator methods that were called with the node (in order): the dispatch as it happens,
+// however the type switch is organised. Calls back into Eval for children are not followed (unknown results).
+func (m *Model) evalOnNode(typeName string, fields map[string]any) (res any, handlers []*ssa.Function, stuck string) {
+	ev := m.Method("evaluator", "Evaluator", "Eval")
+	nt := m.namedType("ast", typeName)
+	if ev == nil || nt == nil {
+		return nil, nil, "Eval or ast." + typeName + " not found"
+	}
+	node := &iStruct{typ: nt, fields: map[int]any{}}
+	st := nt.Underlying().(*types.Struct)
+	var fill func(o *iStruct, stt *types.Struct, prefix string)
+	fill = func(o *iStruct, stt *types.Struct, prefix string) {
+		for i := 0; i < stt.NumFields(); i++ {
+			name := prefix + stt.Field(i).Name()
+			if v, ok := fields[name]; ok {
+				o.fields[i] = v
+				continue
+			}
+			if inner, isNamed := stt.Field(i).Type().(*types.Named); isNamed {
+				if ist, isSt := inner.Underlying().(*types.Struct); isSt {
+					for k := range fields {
+						if strings.HasPrefix(k, name+".") {
+							io := &iStruct{typ: inner, fields: map[int]any{}}
+							o.fields[i] = io
+							fill(io, ist, name+".")
+							break
+						}
+					}
+				}
+			}
+		}
+	}
+	fill(node, st, "")
+	ip := &Interp{m: m}
+	depthOfFirst := -1
+	ip.call = func(c *ssa.Call, args []any) (any, bool) {
+		sc := c.Call.StaticCallee()
+		if sc == nil {
+			return nil, false
+		}
+		if sc == ev && depthOfFirst >= 0 {
+			return nil, true // a child evaluation
+		}
+		for _, a := range args {
+			if a == any(node) && sc != ev && inPkg(sc, "evaluator") && sc.Signature.Recv() != nil {
+				// only functions that take this concrete node type are handlers (wrappers taking ast.Node are dispatch plumbing)
+				for i := 0; i < sc.Signature.Params().Len(); i++ {
+					if types.Identical(sc.Signature.Params().At(i).Type(), types.NewPointer(nt)) {
+						handlers = append(handlers, sc)
+						depthOfFirst = 1
+					}
+				}
+			}
+		}
+		return nil, false
+	}
+	r, known := ip.Run(ev, []any{iObj{"evaluator"}, node, iObj{"env"}})
+	if !known {
+		r = nil
+	}
+	return r, handlers, ip.stuck
 }
